@@ -1,5 +1,340 @@
+(* C27  Link control PDUs get the specified responses: abstract specification and executable monitor.
+
+   1. The response table [spec_kind]: which (opcode, size) pairs are well formed requests, and for every class what
+      has to be answered ([response_ok]).
+   2. The monitor [mstep27] judges an OBSERVED trace of the link layer on the scripted radio (operations and result
+      items only). It keeps what a specification level observer knows: which control PDUs were delivered and are
+      still unprocessed (processing may be delayed only while no transmit buffer is available), the responses
+      that are due (they have to appear on air, in order, in the next connection event), the procedure the
+      peripheral started itself and the time that passed since (from the scheduled windows), whether a version
+      indication was already sent.
+      Clauses (tags):  1 response      a control PDU on air is not the response that is due
+                       2 unsolicited   a control PDU on air although nothing is due
+                       3 missing       a due response is not on air in the next connection event
+                       4 second_version  a second LL_VERSION_IND in one connection
+                       5 procedure_timeout  own procedure unanswered for >= 40 s and the link is still up
+                       6 early_timeout  link closed with 0x22 although no own procedure is 40 s old
+                       7 fault         assert / sanitizer abort
+      Out of scope (the monitor stops judging until the next connection): instant based procedures (C21), encryption
+      PDUs (C28), disconnect() / try_event_cancelation(). *)
 From BT Require Import Base.ListX LL.LLModel LL.LLSpec.
+From BT Require gen.GenLL.
+Import ListNotations.
 Local Open Scope N_scope.
-Definition mon27 := unit.
-Definition minit27 (c : cfg) : mon27 := tt.
-Definition mstep27 (c : cfg) (m : mon27) (o : lop) (r : lout) : verdict * mon27 := (Ok, m).
+
+(* ------------------------------------------------------------------------------------------ the table *)
+(* well formed requests: opcode, size, class. Written from the Core specification's PDU formats (Vol 6 Part B 2.4.2)
+   for the procedures this link layer takes part in; independent of LLModel.ctrl_kind. *)
+Definition spec_table (phy enc version_received : bool) : list (N * N * kind) :=
+  [ (0, 12, KUpdate); (1, 8, KChannelMap); (2, 2, KTerminate); (7, 2, KUnknownRsp); (8, 9, KFeature);
+    (12, 6, if version_received then KUnknown else KVersion); (13, 2, KRejectInd); (15, 24, KCpr);
+    (17, 3, KRejectExt); (18, 1, KPing) ]
+  ++ (if enc then [ (3, 23, KEncReq); (6, 1, KStartEncRsp); (10, 1, KPauseEncReq); (11, 1, KPauseEncRsp) ] else [])
+  ++ (if phy then [ (22, 3, KPhyReq); (24, 5, KPhyUpdate) ] else []).
+
+Fixpoint lookup (t : list (N * N * kind)) (opcode size : N) : option kind :=
+  match t with
+  | [] => None
+  | (o, z, k) :: r => if (o =? opcode) && (z =? size) then Some k else lookup r opcode size
+  end.
+
+(* everything that is not a well formed request is answered with LL_UNKNOWN_RSP - except LL_UNKNOWN_RSP itself *)
+Definition spec_kind (phy enc version_received : bool) (opcode size : N) : kind :=
+  match lookup (spec_table phy enc version_received) opcode size with
+  | Some k => k
+  | None => if opcode =? 7 then KIgnore else KUnknown
+  end.
+
+(* what the property demands of the PDUs committed in answer to a request of class k (for every payload) *)
+Inductive answer := ANone | AExact (b : list N) | AFeature | ACpr | ADeferOrDisconnect | ADisconnect | AOther.
+Definition spec_answer (k : kind) (opcode : N) : answer :=
+  match k with
+  | KPing => AExact [19]
+  | KVersion => AExact [12; GenLL.LL_VERSION_NR; GenLL.company_identifier mod 256; GenLL.company_identifier / 256; 0; 0]
+  | KFeature => AFeature
+  | KPhyReq => AExact [23; 3; 3]
+  | KCpr => ACpr
+  | KUnknown => AExact [7; opcode]
+  | KUnknownRsp | KRejectInd | KRejectExt | KIgnore => ANone       (* responses and rejects are never answered *)
+  | KUpdate | KChannelMap => ADeferOrDisconnect
+  | KTerminate => ADisconnect
+  | KPhyUpdate | KEncReq | KStartEncRsp | KPauseEncReq | KPauseEncRsp => AOther
+  end.
+
+(* ------------------------------------------------------------------------------------------ the monitor *)
+Inductive expect :=
+| EExact (b : list N)
+| EFeature (b0 : N)                  (* LL_FEATURE_RSP with this first feature byte *)
+| ECpr (req : list N).               (* the answer to this LL_CONNECTION_PARAM_REQ *)
+
+Record mon27 := mk27 {
+  m_conn : bool;
+  m_stop : bool;
+  m_txa : bool;
+  m_rx : list pdu;
+  m_exp : list expect;
+  m_ver_rcv : bool;
+  m_ver_sent : bool;
+  m_used : N;
+  m_cpr : option (N * N * N * N);
+  m_phy : option (N * N);
+  m_ver : bool;
+  m_acpr : option (list N);
+  m_timer : N;
+  m_owner : N;
+  m_t : N
+}.
+Definition set_m_conn (r : mon27) (v : bool) : mon27 := mk27 v (m_stop r) (m_txa r) (m_rx r) (m_exp r) (m_ver_rcv r) (m_ver_sent r) (m_used r) (m_cpr r) (m_phy r) (m_ver r) (m_acpr r) (m_timer r) (m_owner r) (m_t r).
+Definition set_m_stop (r : mon27) (v : bool) : mon27 := mk27 (m_conn r) v (m_txa r) (m_rx r) (m_exp r) (m_ver_rcv r) (m_ver_sent r) (m_used r) (m_cpr r) (m_phy r) (m_ver r) (m_acpr r) (m_timer r) (m_owner r) (m_t r).
+Definition set_m_txa (r : mon27) (v : bool) : mon27 := mk27 (m_conn r) (m_stop r) v (m_rx r) (m_exp r) (m_ver_rcv r) (m_ver_sent r) (m_used r) (m_cpr r) (m_phy r) (m_ver r) (m_acpr r) (m_timer r) (m_owner r) (m_t r).
+Definition set_m_rx (r : mon27) (v : list pdu) : mon27 := mk27 (m_conn r) (m_stop r) (m_txa r) v (m_exp r) (m_ver_rcv r) (m_ver_sent r) (m_used r) (m_cpr r) (m_phy r) (m_ver r) (m_acpr r) (m_timer r) (m_owner r) (m_t r).
+Definition set_m_exp (r : mon27) (v : list expect) : mon27 := mk27 (m_conn r) (m_stop r) (m_txa r) (m_rx r) v (m_ver_rcv r) (m_ver_sent r) (m_used r) (m_cpr r) (m_phy r) (m_ver r) (m_acpr r) (m_timer r) (m_owner r) (m_t r).
+Definition set_m_ver_rcv (r : mon27) (v : bool) : mon27 := mk27 (m_conn r) (m_stop r) (m_txa r) (m_rx r) (m_exp r) v (m_ver_sent r) (m_used r) (m_cpr r) (m_phy r) (m_ver r) (m_acpr r) (m_timer r) (m_owner r) (m_t r).
+Definition set_m_ver_sent (r : mon27) (v : bool) : mon27 := mk27 (m_conn r) (m_stop r) (m_txa r) (m_rx r) (m_exp r) (m_ver_rcv r) v (m_used r) (m_cpr r) (m_phy r) (m_ver r) (m_acpr r) (m_timer r) (m_owner r) (m_t r).
+Definition set_m_used (r : mon27) (v : N) : mon27 := mk27 (m_conn r) (m_stop r) (m_txa r) (m_rx r) (m_exp r) (m_ver_rcv r) (m_ver_sent r) v (m_cpr r) (m_phy r) (m_ver r) (m_acpr r) (m_timer r) (m_owner r) (m_t r).
+Definition set_m_cpr (r : mon27) (v : option (N * N * N * N)) : mon27 := mk27 (m_conn r) (m_stop r) (m_txa r) (m_rx r) (m_exp r) (m_ver_rcv r) (m_ver_sent r) (m_used r) v (m_phy r) (m_ver r) (m_acpr r) (m_timer r) (m_owner r) (m_t r).
+Definition set_m_phy (r : mon27) (v : option (N * N)) : mon27 := mk27 (m_conn r) (m_stop r) (m_txa r) (m_rx r) (m_exp r) (m_ver_rcv r) (m_ver_sent r) (m_used r) (m_cpr r) v (m_ver r) (m_acpr r) (m_timer r) (m_owner r) (m_t r).
+Definition set_m_ver (r : mon27) (v : bool) : mon27 := mk27 (m_conn r) (m_stop r) (m_txa r) (m_rx r) (m_exp r) (m_ver_rcv r) (m_ver_sent r) (m_used r) (m_cpr r) (m_phy r) v (m_acpr r) (m_timer r) (m_owner r) (m_t r).
+Definition set_m_acpr (r : mon27) (v : option (list N)) : mon27 := mk27 (m_conn r) (m_stop r) (m_txa r) (m_rx r) (m_exp r) (m_ver_rcv r) (m_ver_sent r) (m_used r) (m_cpr r) (m_phy r) (m_ver r) v (m_timer r) (m_owner r) (m_t r).
+Definition set_m_timer (r : mon27) (v : N) : mon27 := mk27 (m_conn r) (m_stop r) (m_txa r) (m_rx r) (m_exp r) (m_ver_rcv r) (m_ver_sent r) (m_used r) (m_cpr r) (m_phy r) (m_ver r) (m_acpr r) v (m_owner r) (m_t r).
+Definition set_m_owner (r : mon27) (v : N) : mon27 := mk27 (m_conn r) (m_stop r) (m_txa r) (m_rx r) (m_exp r) (m_ver_rcv r) (m_ver_sent r) (m_used r) (m_cpr r) (m_phy r) (m_ver r) (m_acpr r) (m_timer r) v (m_t r).
+Definition set_m_t (r : mon27) (v : N) : mon27 := mk27 (m_conn r) (m_stop r) (m_txa r) (m_rx r) (m_exp r) (m_ver_rcv r) (m_ver_sent r) (m_used r) (m_cpr r) (m_phy r) (m_ver r) (m_acpr r) (m_timer r) (m_owner r) v.
+(* m_rx: delivered, not yet processed; m_exp: due (committed before the current operation, to be on air in the next
+   event); m_cpr/m_phy/m_ver/m_acpr: own requests / asynchronous reply not yet sent; m_timer: 0 = no own procedure awaits
+   its answer, else microseconds left; m_owner: opcode of the own request the timer belongs to; m_t: anchor to anchor
+   time of the next connection event *)
+
+Definition minit27 (c : cfg) : mon27 :=
+  mk27 false false true [] [] false false (supported_features c) None None false None 0 0 0.
+
+Definition new_connection27 (c : cfg) (m : mon27) : mon27 :=
+  mk27 true false (m_txa m) [] [] false false (supported_features c) None None false None 0 0 0.
+
+Definition stop27 (m : mon27) : mon27 :=
+  mk27 (m_conn m) true (m_txa m) [] [] (m_ver_rcv m) (m_ver_sent m) (m_used m) None None false None 0 0 (m_t m).
+
+Definition in_range (lo x hi : N) : bool := (lo <=? x) && (x <=? hi).
+
+(* is [body] an acceptable answer to the connection parameter request [req] ? *)
+Definition cpr_answer_ok (c : cfg) (req body : list N) : bool :=
+  if negb (cpr_params_ok req) then bytes_eqb body [17; 15; GenLL.invalid_ll_paramerters]
+  else
+    match c_cpr c with
+    | CprDesired imin imax lmin lmax tmin tmax =>
+        (N.of_nat (length body) =? 24) && (byte body 0 =? 16)
+        && in_range imin (rd16 body 1) imax && in_range imin (rd16 body 3) imax && (rd16 body 1 <=? rd16 body 3)
+        && in_range lmin (rd16 body 5) lmax && in_range tmin (rd16 body 7) tmax
+        && bytes_eqb (slice body 9 15) (slice req 9 15)
+    | _ => bytes_eqb body (16 :: slice req 1 23)
+    end.
+
+Definition matches (c : cfg) (e : expect) (body : list N) : bool :=
+  match e with
+  | EExact b => bytes_eqb b body
+  | EFeature b0 => bytes_eqb body [9; b0; (supported_features c / 256) mod 256; 0; 0; 0; 0; 0; 0]
+  | ECpr req => cpr_answer_ok c req body
+  end.
+
+Definition cpr_feature : N := GenLL.feature_connection_parameters_request_procedure.
+
+(* processing of the delivered PDUs, as far as the specification allows it to be delayed: returns the monitor, the
+   responses that become due, and whether the connection has to end / the trace leaves the scope *)
+Inductive pres := PGo | PStop | PClosed.
+
+Fixpoint process27 (fuel : nat) (c : cfg) (m : mon27) (has_cpr_cb : bool) (acc : list expect) : mon27 * list expect * pres :=
+  match fuel with
+  | O => (m, acc, PGo)
+  | S fuel' =>
+      match m_rx m with
+      | [] => (m, acc, PGo)
+      | (llid, body) :: rest =>
+          let pop (x : mon27) := set_m_rx x rest in
+          if llid =? 3 then
+            if negb (m_txa m) then (m, acc, PGo)
+            else
+              let size := N.of_nat (length body) in
+              let opcode := byte body 0 in
+              let setu (x : mon27) (u : N) := set_m_used x u in
+              let sett (x : mon27) (t : N) := set_m_timer x t in
+              match spec_kind (c_phy c) (c_enc c) (m_ver_rcv m) opcode size with
+              | KPing => process27 fuel' c (pop m) has_cpr_cb (acc ++ [EExact [19]])
+              | KUnknown => process27 fuel' c (pop m) has_cpr_cb (acc ++ [EExact [7; opcode]])
+              | KIgnore => process27 fuel' c (pop m) has_cpr_cb acc
+              | KPhyReq => process27 fuel' c (pop m) has_cpr_cb (acc ++ [EExact [23; 3; 3]])
+              | KFeature =>
+                  let u := N.land (m_used m) (rd16 body 1) in
+                  process27 fuel' c (pop (setu m u)) has_cpr_cb (acc ++ [EFeature (u mod 256)])
+              | KVersion =>
+                  let m1 := sett m 0 in
+                  let m2 := if byte body 1 <=? GenLL.LL_VERSION_40 then setu m1 (N.land (m_used m1) (65535 - cpr_feature)) else m1 in
+                  let m3 := set_m_ver_sent (set_m_ver_rcv m2 true) true in
+                  (* a single version indication per connection: none is due if one was already sent *)
+                  process27 fuel' c (pop m3) has_cpr_cb
+                            (if m_ver_sent m then acc
+                             else acc ++ [EExact [12; GenLL.LL_VERSION_NR; GenLL.company_identifier mod 256; GenLL.company_identifier / 256; 0; 0]])
+              | KUnknownRsp | KRejectInd | KRejectExt =>
+                  (* never answered; ends the own procedure it names *)
+                  let names := (opcode =? 13) || (byte body 1 =? 15) || ((byte body 1 =? 22) && (m_owner m =? 22)) in
+                  let m1 := if names then sett m 0 else m in
+                  let m2 := if (opcode =? 7) && (byte body 1 =? 15) then setu m1 (N.land (m_used m1) (65535 - cpr_feature)) else m1 in
+                  process27 fuel' c (pop m2) has_cpr_cb acc
+              | KCpr =>
+                  match c_cpr c with
+                  | CprAsync =>
+                      (* either answered at once or handed to the application (cb:cpr in this operation's result) *)
+                      if cpr_params_ok body && has_cpr_cb then process27 fuel' c (pop m) false acc
+                      else process27 fuel' c (pop m) has_cpr_cb (acc ++ [ECpr body])
+                  | _ => process27 fuel' c (pop m) has_cpr_cb (acc ++ [ECpr body])
+                  end
+              | KTerminate => (pop m, acc, PClosed)
+              | _ => (pop m, acc, PStop)       (* instant based procedures, encryption: other properties *)
+              end
+          else if llid =? 2 then
+            match l2cap_reply body with
+            | L2Drop => process27 fuel' c (pop m) has_cpr_cb acc
+            | L2Reply _ => if m_txa m then process27 fuel' c (pop m) has_cpr_cb acc else (m, acc, PGo)
+            end
+          else
+            (* LLID 1 without a preceding start: a fragment nobody waits for, dropped *)
+            process27 fuel' c (pop m) has_cpr_cb acc
+      end
+  end.
+
+Definition tx3 (it : list item) : list (list N) :=
+  flat_map (fun i => match i with ITx 3 b => [b] | _ => [] end) it.
+Definition has_adv (it : list item) : bool := existsb (fun i => match i with IAdv _ => true | _ => false end) it.
+Definition has_closed (it : list item) (r : N) : bool :=
+  existsb (fun i => match i with ICb (EvClosed x) => x =? r | _ => false end) it.
+Definition has_cpr_callback (it : list item) : bool :=
+  existsb (fun i => match i with ICb (EvCpr _ _ _ _) => true | _ => false end) it.
+Definition last_ce (it : list item) : option (N * N) :=
+  fold_left (fun a i => match i with ICe _ s e _ => Some (s, e) | _ => a end) it None.
+
+(* the control PDUs on air against what is due; [ver_sent] = a LL_VERSION_IND was already sent in this connection *)
+Fixpoint judge_air (c : cfg) (due : list expect) (air : list (list N)) (ver_sent : bool) : option nat * bool :=
+  match air with
+  | [] => (match due with [] => None | _ => Some 3%nat end, ver_sent)
+  | b :: air' =>
+      let is_ver := byte b 0 =? 12 in
+      if is_ver && ver_sent then (Some 4%nat, ver_sent)
+      else match due with
+           | [] => (Some 2%nat, ver_sent)
+           | e :: due' => if matches c e b then judge_air c due' air' (ver_sent || is_ver) else (Some 1%nat, ver_sent)
+           end
+  end.
+
+Definition arm (m : mon27) (owner : N) : mon27 := set_m_owner (set_m_timer m GenLL.default_procedure_timeout_us) owner.
+
+Definition own_pdu (m : mon27) : option (expect * mon27) :=
+  match m_cpr m, m_phy m, m_ver m, m_acpr m with
+  | Some (a, b, l, t), _, _, _ =>
+      Some (EExact ([15; a mod 256; (a / 256) mod 256; b mod 256; (b / 256) mod 256; l mod 256; (l / 256) mod 256;
+                     t mod 256; (t / 256) mod 256; 0; 0; 0] ++ repeat 255 12),
+            arm (set_m_cpr m None) 15)
+  | None, Some (t, r), _, _ => Some (EExact [22; t; r], arm (set_m_phy m None) 22)
+  | None, None, true, _ =>
+      Some (EExact [12; GenLL.LL_VERSION_NR; GenLL.company_identifier mod 256; GenLL.company_identifier / 256; 0; 0],
+            arm (set_m_ver m false) 12)
+  | None, None, false, Some b => Some (EExact b, set_m_acpr m None)
+  | None, None, false, None => None
+  end.
+
+Definition with_t (m : mon27) (it : list item) : mon27 :=
+  match last_ce it with
+  | Some (s, e) => set_m_t m ((s + e) / 2)
+  | None => m
+  end.
+
+Definition ended (c : cfg) (m : mon27) : mon27 := mk27 false false (m_txa m) [] [] false false (supported_features c) None None false None 0 0 0.
+
+Definition mstep27 (c : cfg) (m : mon27) (o : lop) (r : lout) : verdict * mon27 :=
+  match r with
+  | OCrash => (Bad 7, m)
+  | OPre | OBadOp => (Ok, m)
+  | OItems it =>
+      match o with
+      | TxAvail b => (Ok, set_m_txa m b)
+      | Adv _ _ => if existsb (fun i => match i with ICe _ _ _ _ => true | _ => false end) it
+                   then (Ok, with_t (new_connection27 c m) it) else (Ok, m)
+      | Run | AdvTimeout | St | Key _ => (Ok, m)
+      | _ =>
+        if negb (m_conn m) then (Ok, m)
+        else if m_stop m then (Ok, if has_adv it then ended c m else m)
+        else
+        match o with
+        | Disconnect _ | Cancel _ _ => (Ok, stop27 m)
+        | Cpu a b l t =>
+            match it with
+            | [IRet true] => (Ok, set_m_cpr m (Some (a mod 65536, b mod 65536, l mod 65536, t mod 65536)))
+            | _ => (Ok, m)
+            end
+        | Cpr a b l t =>
+            match it with
+            | [IRet true] => (Ok, set_m_cpr m (Some (a mod 65536, b mod 65536, l mod 65536, t mod 65536)))
+            | _ => (Ok, m)
+            end
+        | PhyReq t r' =>
+            match it with
+            | [IRet true] => (Ok, set_m_phy m (Some (t mod 256, r' mod 256)))
+            | _ => (Ok, m)
+            end
+        | VerReq =>
+            match it with
+            | [IRet true] => (Ok, set_m_ver m true)
+            | _ => (Ok, m)
+            end
+        | CprReply a b l t =>
+            (Ok, set_m_acpr m (Some ([16; a mod 256; (a / 256) mod 256; b mod 256; (b / 256) mod 256; l mod 256; (l / 256) mod 256;
+                              t mod 256; (t / 256) mod 256; 0] ++ repeat 255 14)))
+        | CprNeg e =>
+            (Ok, set_m_acpr m (Some [17; 15; e mod 256]))
+        | Timeout =>
+            (* a missed event: the own procedure's clock runs on *)
+            let due22 := negb (m_timer m =? 0) && (m_timer m <=? m_t m) in
+            if has_adv it then
+              if has_closed it 34 && negb due22 then (Bad 6, m) else (Ok, ended c m)
+            else if due22 then (Bad 5, m)
+            else (Ok, with_t m it)
+        | Ev _ pdus =>
+            (* 1. what is on air now is what was due *)
+            let '(v, ver_sent) := judge_air c (m_exp m) (tx3 it) (m_ver_sent m) in
+            match v with
+            | Some t => (Bad t, m)
+            | None =>
+                (* 2. delivery and processing *)
+                let rx := m_rx m ++ filter (fun p => negb (N.of_nat (length (snd p)) =? 0) && negb (N.land (fst p) 3 =? 0))
+                                           (map (fun p => (N.land (fst p) 3, snd p)) pdus) in
+                let m1 := set_m_ver_sent (set_m_exp (set_m_rx m rx) []) ver_sent in
+                let '(m2, due, res) := process27 (S (length rx)) c m1 (has_cpr_callback it) [] in
+                match res with
+                | PClosed => (Ok, ended c m2)
+                | PStop => (Ok, if has_adv it then ended c m2 else stop27 m2)
+                | PGo =>
+                    (* 3. the own procedure's clock *)
+                    let due22 := negb (m_timer m2 =? 0) && (m_timer m2 <=? m_t m2) in
+                    if has_adv it then
+                      if due22 then (Ok, ended c m2)
+                      else if has_closed it 34 then (Bad 6, m2) else (Ok, ended c m2)
+                    else if due22 then (Bad 5, m2)
+                    else
+                      let m3 := if m_timer m2 =? 0 then m2
+                                else set_m_timer m2 (m_timer m2 - m_t m2) in
+                      (* 4. one own request per event, when there is a buffer *)
+                      let '(due', m4) := if m_txa m3 then
+                                           match own_pdu m3 with Some (e, m') => (due ++ [e], m') | None => (due, m3) end
+                                         else (due, m3) in
+                      (Ok, with_t (set_m_exp m4 due') it)
+                end
+            end
+        | _ => (Ok, m)
+        end
+      end
+  end.
+
+Fixpoint mrun27 (c : cfg) (m : mon27) (tr : list (lop * lout)) : verdict :=
+  match tr with
+  | [] => Ok
+  | (o, r) :: t => match mstep27 c m o r with (Ok, m') => mrun27 c m' t | (Bad k, _) => Bad k end
+  end.
+
+Definition accepts27 (c : cfg) (tr : list (lop * lout)) : Prop := mrun27 c (minit27 c) tr = Ok.
